@@ -378,8 +378,9 @@ def linkify(
 
             if url != before_clip:
                 amp = url.rfind("&")
-                # avoid splitting html char entities
-                if amp > max_len - 5:
+                # avoid splitting html char entities: in escaped text every
+                # "&" starts an entity that ends with ";"
+                if amp != -1 and ";" not in url[amp:]:
                     url = url[:amp]
                 url += "..."
 
